@@ -360,6 +360,9 @@ func c12RunSched(line string) string {
 			if cur == hint {
 				k := strings.IndexByte(hint, '/')
 				if own >= 0 && k >= 0 && k+1+own < len(hint) && hint[k+1+own] == 'b' {
+					if strings.Count(hint[k+1:k+1+n], "b") > 1 {
+						time.Sleep(200 * time.Millisecond) // two blocked senders: the order in which they queued matters later
+					}
 					time.Sleep(100 * time.Millisecond) // "still blocked" must be stable
 					return status()
 				}
@@ -676,6 +679,102 @@ func c12RunStress(line string) string {
 	return "ok closed"
 }
 
+
+// ---------------------------------------------------------------------------------------------
+// fresh objects: the very first posts on a just-constructed Handler/Actor race each other
+
+func c12RunFresh(line string) string {
+	toks := strings.Fields(line)
+	kind, ctor := c12KV(toks, "k"), c12KV(toks, "ctor")
+	capacity, posters, m, rounds := c12KVInt(toks, "cap"), c12KVInt(toks, "posters"), c12KVInt(toks, "m"), c12KVInt(toks, "rounds")
+	for round := 0; round < rounds; round++ {
+		counts := make([][]int32, posters)
+		lastSeq := make([]int32, posters)
+		for i := range counts {
+			counts[i] = make([]int32, m)
+			lastSeq[i] = -1
+		}
+		var running, delivered int32
+		var violMu sync.Mutex
+		viol := ""
+		setViol := func(s string) {
+			violMu.Lock()
+			if viol == "" {
+				viol = s
+			}
+			violMu.Unlock()
+		}
+		body := func(i, seq int) {
+			if r := atomic.AddInt32(&running, 1); r > 1 {
+				setViol(fmt.Sprintf("overlap %d functions running at once on a fresh mailbox", r))
+			}
+			for k := 0; k < 40; k++ { // stay "running" for a moment
+				atomic.LoadInt32(&delivered)
+			}
+			if i < 0 || i >= posters || seq < 0 || seq >= m {
+				setViol(fmt.Sprintf("phantom message %d/%d", i, seq))
+			} else {
+				if c := atomic.AddInt32(&counts[i][seq], 1); c > 1 {
+					setViol(fmt.Sprintf("duplicate message %d/%d ran %d times", i, seq, c))
+				}
+				if prev := atomic.SwapInt32(&lastSeq[i], int32(seq)); int32(seq) <= prev {
+					setViol(fmt.Sprintf("order sender %d: %d ran after %d", i, seq, prev))
+				}
+			}
+			atomic.AddInt32(&running, -1)
+			atomic.AddInt32(&delivered, 1)
+		}
+		box := c12NewBox(kind, ctor, capacity, body)
+		var ready int32
+		var wg sync.WaitGroup
+		for i := 0; i < posters; i++ {
+			wg.Add(1)
+			go func(i int) {
+				defer wg.Done()
+				defer func() {
+					if r := recover(); r != nil {
+						setViol(fmt.Sprint("panic escaped from Post/Send: ", r))
+					}
+				}()
+				atomic.AddInt32(&ready, 1)
+				for spin := 0; atomic.LoadInt32(&ready) < int32(posters); spin++ { // spin barrier: all first posts at once
+					if spin > 2000 {
+						time.Sleep(time.Microsecond)
+					}
+				}
+				for seq := 0; seq < m; seq++ {
+					box.post(i, seq)
+				}
+			}(i)
+		}
+		done := make(chan struct{})
+		go func() { wg.Wait(); close(done) }()
+		select {
+		case <-done:
+		case <-time.After(c13StressPatience(20 * time.Second)):
+			atomic.AddInt32(&c13StressViols, 1)
+			return fmt.Sprintf("viol deadlock round %d: posters still blocked", round)
+		}
+		deadline := time.Now().Add(c13StressPatience(20 * time.Second))
+		for atomic.LoadInt32(&delivered) < int32(posters*m) && time.Now().Before(deadline) && viol == "" {
+			time.Sleep(20 * time.Microsecond)
+		}
+		d := atomic.LoadInt32(&delivered)
+		func() { defer func() { recover() }(); box.close() }()
+		if viol == "" && d != int32(posters*m) {
+			viol = fmt.Sprintf("lost delivered=%d of %d", d, posters*m)
+		}
+		if viol == "" && atomic.LoadInt32(&box.selfBad) != 0 {
+			viol = "self effect received another actor"
+		}
+		if viol != "" {
+			atomic.AddInt32(&c13StressViols, 1)
+			return fmt.Sprintf("viol %s (round %d)", viol, round)
+		}
+	}
+	return fmt.Sprintf("ok rounds=%d", rounds)
+}
+
 // ---------------------------------------------------------------------------------------------
 // spawn trees
 
@@ -819,6 +918,8 @@ func c12Run(line string) string {
 		return c12RunSched(line)
 	case strings.HasPrefix(line, "stress "):
 		return c12RunStress(line)
+	case strings.HasPrefix(line, "fresh "):
+		return c12RunFresh(line)
 	case strings.HasPrefix(line, "tree"):
 		return c12RunTree(line)
 	}
@@ -1033,6 +1134,22 @@ func c12Gen(tier string, rng *rand.Rand, emit func(string)) map[string]interface
 		}
 	}
 	stats["stress_cases"] = nStress
+	// (4b) fresh objects: k posters released by a barrier make the very first posts on a just-constructed mailbox
+	nFresh := 0
+	freshRounds := 150
+	if thorough {
+		freshRounds = 1500
+	}
+	for _, kind := range kinds {
+		for _, capacity := range []int{0, 1, 8} {
+			for _, posters := range []int{2, 8} {
+				emit(fmt.Sprintf("fresh k=%s ctor=%s cap=%d posters=%d m=%d rounds=%d seed=%d", kind, ctorFor(kind, capacity),
+					capacity, posters, 1+rng.Intn(4), freshRounds, rng.Intn(1000000)))
+				nFresh++
+			}
+		}
+	}
+	stats["fresh_cases"] = nFresh
 	// (5) spawn trees: sequential histories
 	nTree := 120
 	if thorough {
